@@ -15,7 +15,8 @@ RULE = ("Two strategies. (1) Hypothesis draws a vector / matrix / scalar recipe 
         "operation (indexing, slicing incl. negative steps and slices of slices, row/column/diagonal/"
         "transpose/sub-matrix views, symmetric sharing, element-wise arithmetic with scalars, NumPy scalars, "
         "arrays, lists, vectors, matrices on either side, sum, dot, @, norms, quadratic forms, trace, "
-        "matrix-vector products) and a value assignment; the built object's evaluate()/to_numpy() must have the "
+        "matrix-vector products, operators / functions / indexing / builtin sum() applied to the results of x ** k and f(x), "
+        "elements of vector and matrix expressions, iteration over matrix rows / columns) and a value assignment; the built object's evaluate()/to_numpy() must have the "
         "shape and values of the same recipe executed with NumPy arrays.  (2) Hypothesis draws a pair of "
         "operands with incompatible shapes for one operation; building must raise (or, if NumPy itself would "
         "broadcast the pair, agree with NumPy).  Non-trivial = the recipe contains a view of a view, a "
@@ -60,7 +61,7 @@ def mismatch_cases(draw):
     r2, c2 = draw(st.tuples(st.integers(1, 3), st.integers(1, 3)).filter(lambda t: t != (r, c)))
     bop = draw(st.sampled_from(["+", "-", "*", "/"]))
     sense = draw(st.sampled_from(["<=", ">=", "=="]))
-    expr_side = draw(st.booleans())
+    expr_side = draw(st.sampled_from([False, True, True, "pow", "un"]))
     return {"mode": "mismatch", "op": op, "n": n, "m": m, "r": r, "c": c, "r2": r2, "c2": c2, "bop": bop,
             "sense": sense, "expr": expr_side}
 
@@ -136,7 +137,8 @@ def _check_mismatch(case):
     op, n, m, r, c, r2, c2 = case["op"], case["n"], case["m"], case["r"], case["c"], case["r2"], case["c2"]
     classes = ["mismatch:" + op]
     x, y = VectorVariable("x", n), VectorVariable("y", m)
-    xe = (x + 1) if case["expr"] else x
+    from optyx import sin
+    xe = {False: lambda: x, True: lambda: x + 1, "pow": lambda: x ** 2, "un": lambda: sin(x)}[case["expr"]]()
     A, B = MatrixVariable("A", r, c), MatrixVariable("B", r2, c2)
     Ae = (A * 2) if case["expr"] else A
     bop, sense = case["bop"], case["sense"]
@@ -152,7 +154,7 @@ def _check_mismatch(case):
         "vec*arr2d": lambda: _bin(bop, xe, np.ones((n, n + 1))),
         "dot": lambda: xe.dot(y),
         "lincomb": lambda: np.ones(m) @ xe,
-        "matvec": lambda: np.ones((2, m)) @ x if not case["expr"] else matmul(np.ones((2, m)), xe),
+        "matvec": lambda: np.ones((2, m)) @ x if case["expr"] is not True else matmul(np.ones((2, m)), xe),
         "mvarvec": lambda: MatrixVariable("Q", 2, m) @ xe,
         "quad-nonsquare": lambda: quadratic_form(xe, np.ones((n, n + 1))),
         "quad-size": lambda: quadratic_form(xe, np.ones((m, m))),
